@@ -376,6 +376,16 @@ impl FrameQueue {
         delta != 0 && delta <= next_delta
     }
 
+    /// Whether an ack frame naming this frame window base can be a current one: the receiver's
+    /// frame window base never moves backwards, so a base behind the one already reported (or
+    /// beyond the frames sent) marks an old or bogus frame.
+    pub fn is_current_window_base(&self, base_id: u32) -> bool {
+        let next_delta = self.frame_log.next_id().wrapping_sub(self.window.base_id);
+        let delta = base_id.wrapping_sub(self.window.base_id);
+
+        delta <= next_delta
+    }
+
     pub fn advance_transfer_window(&mut self, new_base_id: u32, rtt_ms: Option<u64>) {
         if self.can_advance_transfer_window(new_base_id) {
             self.window.base_id = new_base_id;
